@@ -8,6 +8,8 @@ def build(tier):
     # the ten include_undocumented_* flags symbolic; delta says: shown = documented or flag[kind]
     md, mc = (1 if quick else 2), (2 if quick else 3)
     obs = steps.step_obligations("C08.a", [k for k in kinds if k != "cpp_class"], tier, md, mc, symflags=True, symargs=False)
+    # implementing definitions that take nothing beyond the name and self (the pending declaration is consumed all the same)
+    obs += steps.step_obligations("C08.a", ["function", "macro"], tier, md, mc, symflags=True, symargs=False, arities={"function": [2], "macro": [2]})
     # known finding D3 (documented cpp_class with include_undocumented_cpp_class off): its region is subtracted from the cpp_class
     # shard, and isolated in a shard of its own that is expected to fail (prints KNOWN-FINDING; says so if it stops reproducing)
     obs += steps.step_obligations("C08.a", ["cpp_class"], tier, md, mc, symflags=True, symargs=False, region=("D3", "out"))
